@@ -22,7 +22,7 @@ KIND = {
     "R06.1": "T", "R06.2": "S", "R06.3": "W", "R06.4": "W", "R06.5": "T", "R06.6": "T", "R16.5": "W",
     "R07.1": "S", "R07.2": "T", "R07.4": "S", "R07.5": "S", "R07.6": "S", "R07.7": "W", "R07.8": "W",
     "R08.1": "S", "R08.2": "S", "R08.3": "S", "R08.4": "S",
-    "R09.1": "S", "R09.2": "S", "R09.3": "S", "R09.4": "S", "R09.5": "S",
+    "R09.1": "S", "R09.2": "S+W", "R09.3": "S", "R09.4": "S", "R09.5": "S",
     "R10.1": "S", "R10.2": "S", "R10.3": "S", "R10.4": "S",
     "R11.1": "S", "R11.2": "S", "R11.3": "S",
     "R12.1": "S", "R12.2": "S",
@@ -32,7 +32,7 @@ KIND = {
     "R16.1": "T", "R16.2": "W", "R16.3": "W", "R16.4": "W",
     "R17.1": "W", "R17.2": "W", "R17.3": "W", "R17.4": "T",
     "R18.1": "W", "R18.2": "T", "R18.3a": "S", "R18.3b": "S", "R18.4": "W", "R18.5": "T", "R18.6": "T", "R18.7": "T", "R18.8": "W",
-    "R19.1a": "S", "R19.1b": "W", "R19.2": "W", "R19.3": "T", "R19.4": "T",
+    "R19.1a": "S", "R19.1b": "W", "R19.1c": "T", "R19.2": "W", "R19.3": "T", "R19.4": "T",
     "R20.1": "T", "R20.3": "W", "R20.4": "W", "R20.5": "S",
     "SELF": "self-validation of the checker on single-edit variants of the current tree",
 }
@@ -43,4 +43,6 @@ NAMES = {"S": "structural / dataflow analysis of the resolved program (all input
 
 def method(rule):
     k = KIND.get(rule, "?")
+    if "+" in k:
+        return " + ".join(NAMES.get(x, x) for x in k.split("+"))
     return NAMES.get(k, k)
